@@ -26,8 +26,8 @@ from .c01 import balance_check
 
 ID = 'C08'
 LEVEL = 'exploration'
-CASES = {'quick': 432, 'thorough': 8000}
-CASE_TIMEOUT = 40
+CASES = {'quick': 384, 'thorough': 8000}
+CASE_TIMEOUT = 15
 TECHNIQUE = ('property-based testing (Hypothesis): generated networks with 1-3+ leaks and short add/run/remove/reset '
              'histories simulated with WNTRSimulator; every reported row compared with a closed-form orifice '
              'reference evaluated from the generated spec and the reported pressure, window membership decided from '
@@ -39,7 +39,7 @@ RULE = ('netgen networks (2-8 junctions, thorough to 16; loops, parallel links, 
         'junctions are lifted to or above the hydraulic grade (p <= 0) and some leaking tanks start empty or with a '
         'level inside the 0.1 mm band. about 60 % of the cases run once; the others follow a history template '
         '(remove+reset+rerun+add again, remove before the first run, pause/remove/continue, pause/continue, reset+rerun). '
-        'Enumerated part: 46 hand-built three-node networks (junction/tank/both leaks x window kind x DD/PDD x report). '
+        'Enumerated part: 52 hand-built three-node networks (junction/tank/both leaks x window kind x DD/PDD x report). '
         'Non-trivial = all runs converged and at least one reported row with an active leak and at least one of '
         '{window boundary off the hydraulic grid inside the run, active tank leak, active leak at p <= 0 or inside '
         'the band, >= 2 leaks active in one row, executed remove_leak}; distinct = SHA-1 of the case.')
@@ -55,8 +55,6 @@ ASSUMPTIONS = [
     'of a run, and for end only if the leak had started (a control that changes nothing creates no step)',
     'runs that WNTR reports as not converged are inconclusive (their reported prefix is still checked); an exception '
     'from run_sim counts as a violation only if the same network without leaks runs without that exception',
-    'NewtonSolver MAXITER is set to 300 (default 3000) only to bound the cost of steps that do not converge; a step that '
-    'would need more iterations is reported by WNTR as not converged and the case is inconclusive',
     'after a pause (no reset) leaks are not added and the window is read in absolute simulation time; a leak removed '
     'during a pause must be silent in the continuation ("remove_leak removes it completely")',
     'tank storage: with report ALL a cylindrical leaking tank must satisfy level[k+1]-level[k] = '
@@ -69,7 +67,7 @@ TOLERANCES = {'leak_rate_abs': '1.05e-6 m3/s (NewtonSolver TOL 1e-6 on the resid
               'band': '[ -1.05e-6, Cd*A*sqrt(2g*1e-4) + 1.05e-6 ] for 0 < p < 1e-4 (constants.leak_delta)',
               'junction_balance_abs': '1.05e-6 + 1e-9*sum|q| (as C01)', 'tank_balance': '1e-9*(1+sum|q|) (as C01)',
               'tank_storage': '1e-9*(1 + |level|) m + 1e-9*|dV|/area'}
-LEVEL_TEXT = ('exploration: a few hundred (quick) to ~8000 (thorough) generated networks/histories per seed plus 46 '
+LEVEL_TEXT = ('exploration: a few hundred (quick) to ~8000 (thorough) generated networks/histories per seed plus 52 '
               'enumerated ones; no exhaustiveness claim')
 LEVEL_NOTE = ('trusted base: the window rule and orifice formula in this file (~40 lines), netgen/spec builders, the C01 '
               'balance evaluator; pressures are taken from the reported results')
@@ -78,7 +76,7 @@ G = 9.81
 BAND = 1.0e-4
 SLOPE = 1.0e-11
 NTOL = 1.05e-6
-MAXITER = 3000
+MAXITER = None      # solver defaults of the code under test; slow non-converging cases end at CASE_TIMEOUT
 SHRINK_BUDGET = {'quick': 40, 'thorough': 240}
 
 FEAT = {'nj': (2, 8), 'tanks': (0, 2), 'extra_res': (0, 1), 'pumps': True, 'valves': True, 'cvs': True,
@@ -205,11 +203,11 @@ def strategy(draw, tier='quick'):
         if draw(st.integers(0, 5)) == 0:
             chosen.append(draw(st.integers(0, n - 1)))      # remove_leak on a node that may have no leak
         if tmpl == 'remove_reset_readd':
-            ops = [['run']] + [['remove', i] for i in chosen] + [['reset'], ['run']]
+            ops = [['run']] + [['remove', i] for i in chosen] + [['reset'], ['run'], ['reset']]
             for i in chosen[:k]:
                 lk = draw(_leak(o))
                 ops.append(['add', i, lk['area'], lk['cd'], lk['start'], lk['end']])
-            ops += [['reset'], ['run']]
+            ops += [['run']]
         elif tmpl == 'remove_before_run':
             ops = [['remove', i] for i in chosen] + [['run']]
         elif tmpl == 'pause_remove_continue':
@@ -249,6 +247,13 @@ def enumerate_cases(tier='quick'):
         for lvl in (0.0, 2e-5, 5e-5, 9.9e-5, 1e-4):
             yield _mini({'T1': {'area': 2e-3, 'cd': 0.6, 'start': 0, 'end': None},
                          'J2': {'area': 1e-4, 'cd': 0.75, 'start': 0, 'end': 5000}}, dm, 'ALL', t_init=lvl, j2_elev=45.0)
+    for dm in ('DD', 'PDD'):          # leaks still running when the simulation is paused and they are removed
+        for rm in ([0], [2], [0, 2]):
+            sp = _mini({'J1': {'area': 1e-4, 'cd': 0.75, 'start': 0, 'end': None},
+                        'T1': {'area': 2e-3, 'cd': 0.6, 'start': 1800, 'end': 6 * 3600}}, dm, 'ALL')
+            sp['c08'] = {'template': 'pause_remove_continue',
+                         'ops': [['run']] + [['remove', i] for i in rm] + [['extend', 3], ['run']]}
+            yield sp
     windows = [(0, None), (1234, 2 * 3600 + 11), (3600, 10800), (None, 7200), (5 * 3600, None), (7100, 7101)]
     for wi, (s, e) in enumerate(windows):
         for dm in ('DD', 'PDD'):
@@ -264,8 +269,8 @@ def enumerate_cases(tier='quick'):
                        j2_elev=[12.0, 60.0, 45.0][wi % 3])
             if wi % 2 == 0:
                 sp['c08'] = {'template': 'remove_reset_readd',
-                             'ops': [['run'], ['remove', 1], ['remove', 2], ['reset'], ['run'],
-                                     ['add', 2, 1e-3, 0.5, 900, 4000], ['reset'], ['run']]}
+                             'ops': [['run'], ['remove', 1], ['remove', 2], ['reset'], ['run'], ['reset'],
+                                     ['add', 2, 1e-3, 0.5, 900, 4000], ['run']]}
             else:
                 sp['c08'] = {'template': 'pause_remove_continue',
                              'ops': [['run'], ['remove', 2], ['extend', 2], ['run']]}
